@@ -126,6 +126,26 @@ def check_select(fx, rep, crate, cfg):
     rep.check(ok, 'R18.2', '%s|ready-returns-polled-index|%s' % (fk, cfg), body.where(),
               'Ready((idx, item)) carries the index that was polled and that poll\'s payload',
               'the index reported with a ready item is not the index that was polled (the server would serve / advance the wrong connection)', det)
+    # nothing is polled after a Ready result: the ready output is returned at once
+    after = None
+    x = pt.get('t')
+    for _ in range(8):
+        if x is None:
+            break
+        info = body.switch_info(x)
+        if info and info.get('kind') == 'discr':
+            after = info['arms'].get(0)
+            break
+        sx = body.succ(x)
+        x = sx[0] if len(sx) == 1 else None
+    if after is None:
+        rep.bad('R18.2', '%s|ready-returned-at-once|%s' % (fk, cfg), C.where(body, pb), 'the match on the result of the inner poll was not found')
+    else:
+        again = pb in body.reachable(after)
+        rep.check(not again, 'R18.2', '%s|ready-returned-at-once|%s' % (fk, cfg), C.where(body, pb),
+                  'after a Ready result no further future is polled in this call: the output is returned at once',
+                  'after one future returned Ready the sweep goes on polling: a second future that is ready in the same sweep has its output produced and dropped '
+                  '(its message was already consumed from the connection buffer)')
     # Pending only after the sweep (iterator exhausted) or with no futures
     pend = [(b, i, s) for b, i, s in C.aggr_adt_sites(body, 'task::Poll', 'Pending') if s['place']['l'] == 0]
     bad = []
